@@ -112,6 +112,11 @@ def hyp(acc, n, seed, tier):
     harness.run_hypothesis(acc, strategy(tier), lambda c: harness.process(mod, acc, "text", c, "L2-hyp"), n, seed)
 
 
+def is_known(kind, case):
+    # S4a through markers: V >= lo merged with V < "X.postN" renders as ~=lo (see known_findings.json)
+    return "S4a-post-release-upper-bound" if O.s4a_case(case) else None
+
+
 def evaluate(kind, case, acc):
     tree, ctx = case["tree"], case.get("context", "metadata")
     text = M.render(tree)
